@@ -134,6 +134,18 @@ type c28result struct {
 	incon  bool
 }
 
+// c28close shuts the server down without waiting for ever: miniredis's Close waits for every
+// connection handler, and a connection that was dialled but never used (a GetPeers that sends
+// no command) may not be registered yet, in which case Close would block.
+func c28close(mr *miniredis.Miniredis) {
+	done := make(chan struct{})
+	go func() { mr.Close(); close(done) }()
+	select {
+	case <-done:
+	case <-time.After(2 * time.Second):
+	}
+}
+
 func c28run(c c28case) c28result {
 	var res c28result
 	mr, err := miniredis.Run()
@@ -142,7 +154,7 @@ func c28run(c c28case) c28result {
 		res.incon = true
 		return res
 	}
-	defer mr.Close()
+	defer c28close(mr)
 	clk := clock.NewMock()
 	clk.Set(time.Unix(c.t0, int64(c.frac)))
 	mr.SetTime(clk.Now())
